@@ -347,7 +347,13 @@ namespace hgraph
         // the wiring is stable (and idempotent on a pause/resume re-entry).
         single_nested_graph_bind_inputs(nested, evaluation_time);
         single_nested_graph_bind_output(nested, evaluation_time);
-        return nested.child_graph().evaluate(evaluation_time);
+        const bool completed = nested.child_graph().evaluate(evaluation_time);
+        // A REF-shaped child terminal (a selection such as if_then_else) may have been
+        // re-pointed by this evaluation. Follow it now so consumers of this node read
+        // the newly referenced target in the same cycle, not the previous target until
+        // the next evaluation of this node. A no-op while the terminal is unchanged.
+        if (completed) { single_nested_graph_bind_output(nested, evaluation_time); }
+        return completed;
     }
 
     void single_nested_graph_bind_inputs(const SingleNestedGraphNodeView &nested,
